@@ -23,11 +23,11 @@ EXPLANATION = (
 FORMS = {"Scalar": "S", "Range": "R", "All": "A"}
 
 
-def routing(F):
-    """(slot forms) -> native compiler names, from the Bracket arm of subscript()"""
+def routing(F, fn_name="subscript", mod_suffix="expressions"):
+    """(slot forms) -> native compiler names, from the Bracket arm of subscript() / subscript_ref() / <op>_assign()"""
     out = []
     for it in F.syn("mech_interpreter.lib"):
-        if it["k"] == "fn" and it["name"] == "subscript" and it["mod"].endswith("expressions"):
+        if it["k"] == "fn" and it["name"] == fn_name and it["mod"].endswith(mod_suffix):
             for m in find(it["body"], "match"):
                 for arm in m[2]:
                     p = arm[0]
@@ -71,7 +71,8 @@ def shape_class(s):
     return None
 
 
-def expected_nfc(slots, shp):
+def expected_nfc(slots, shp, one_d=None, prefix="MatrixAccess"):
+    one_d = one_d or {"Scalar": "AccessScalar", "Range": "AccessRange", "All": "MatrixAccessAll"}
     forms = []
     shapes = []
     if shp:
@@ -95,8 +96,8 @@ def expected_nfc(slots, shp):
         else:
             return None
     if len(forms) == 1:
-        return {"Scalar": "AccessScalar", "Range": "AccessRange", "All": "MatrixAccessAll"}[forms[0]], forms
-    return "MatrixAccess" + "".join(forms), forms
+        return one_d[forms[0]], forms
+    return prefix + "".join(forms), forms
 
 
 def classify_component(c, w, k):
